@@ -16,7 +16,10 @@
 //!            "flush_after":[k..]                                      also flush after the k-th event
 //!            "predict":{"logs":[{"ids":[k..],"dec":class}]}}          level-B prediction (soft)
 //!
-//! trace (one scenario after the other): Reset, Emit*, (Connect|Req)*, Flush - see OtlpTrace.tla.
+//!   or     {"sc":n, .., "overflow":{..}}   the channel's own overflow, see `run_overflow`
+//!   or     {"sc":n, .., "form":".."}       a transport configuration as such, see `run_form`
+//!
+//! trace (one scenario after the other): Reset, [Built], (Emit|EmitBurst|Trunc)*, (Connect|Req)*, Flush - see OtlpTrace.tla.
 use emit::metric::Source;
 use emit::Emitter;
 use std::collections::HashMap;
@@ -76,7 +79,239 @@ struct Outcome {
     summary: Value,
 }
 
+/// The collector's log as trace events (see OtlpTrace.tla), up to and including the
+/// `n_flushes`-th Flush record: (trace events, requests, largest request, collector tool errors)
+fn trace_of(snap: &[Value], mut n_flushes: usize) -> (Vec<Value>, u64, u64, Vec<Value>) {
+    let (mut trace, mut nreq, mut max_bytes, mut tool_errors) = (Vec::new(), 0u64, 0u64, Vec::new());
+    for e in snap {
+        match e["ev"].as_str().unwrap_or("") {
+            "Emit" | "EmitBurst" | "Trunc" | "Built" | "Connect" => trace.push(e.clone()),
+            "Req" => {
+                let known = !e["ids"].is_null();
+                let ack = e["ack"].as_bool().unwrap_or(false);
+                let dec = dec_class(e["dec"].as_str().unwrap_or(""), Decision::parse(e["dec"].as_str().unwrap_or("")).map_or(false, |d| d.is_ack()));
+                nreq += 1;
+                max_bytes = max_bytes.max(e["bytes"].as_u64().unwrap_or(0));
+                trace.push(json!({
+                    "ev": "Req", "ep": e["ep"], "sig": e["sig"].as_str().unwrap_or("none"), "conn": e["conn"],
+                    "known": known, "ids": if known { e["ids"].clone() } else { json!([]) },
+                    "dec": dec, "ack": ack, "bad": !e["err"].is_null(), "raw": e["dec"], "err": e["err"].as_str().unwrap_or(""), "t": e["t"], "gz": e["gzip"], "bytes": e["bytes"], "res": e["res"], "hdr": e["hdr"],
+                }));
+            }
+            "Flush" => {
+                trace.push(e.clone());
+                n_flushes -= 1;
+                if n_flushes == 0 {
+                    break;
+                }
+            }
+            "ToolError" => tool_errors.push(e.clone()),
+            _ => {}
+        }
+    }
+    (trace, nreq, max_bytes, tool_errors)
+}
+
+fn forms_of(s: &Value) -> client::Forms {
+    client::Forms {
+        resource: s["resource"].as_bool().unwrap_or(false),
+        headers: s["headers"].as_bool().unwrap_or(false),
+        entry_builder: s["entry"].as_str() == Some("builder"),
+    }
+}
+
+fn reset_of(scn: u64, proto: Proto, forms: client::Forms) -> Value {
+    json!({"ev": "Reset", "sc": scn, "http1": !proto.is_grpc(),
+        "res": if forms.resource { client::RES_VALUE } else { "" }, "hdr": if forms.headers { client::HDR_VALUES } else { "" }})
+}
+
+const REAL_CAP: u64 = 10_000;
+const PRIME_BASE: i64 = 1_000_000;
+const CHUNK: u64 = 500;
+
+/// The channel's own overflow inside the delivery accounting.  "overflow": {"sig":..,"cap":K,
+/// "ops":["send"|"take"..],"regime":"default"|"mid"}: an operation sequence of spec/OtlpChan.tla;
+/// one model send is a burst of 10 000 / K events (the emitter's capacity is 10 000 events per
+/// signal).  The collector reads requests but holds its answers while the bursts are emitted, so
+/// the worker is parked with one request in flight and everything else stays pending; the
+/// signal's queue_full_truncated counter is sampled after every 500 events and a rise is logged
+/// (Trunc).  "take": the collector answers, flush, and holds again.
+/// Needs a request timeout far above the run time (VH_REQUEST_TIMEOUT_MS).
+fn run_overflow(coll: &Collector, s: &Value, flush_timeout: Duration) -> Outcome {
+    let scn = s["sc"].as_u64().unwrap_or(0);
+    let proto = Proto::parse(s["proto"].as_str().unwrap_or("")).unwrap_or_else(|| tool_error("scenario: bad proto"));
+    let gzip = s["gzip"].as_bool().unwrap_or(false);
+    let signals: Vec<Signal> = s["signals"].as_array().unwrap().iter().map(|x| Signal::parse(x.as_str().unwrap()).unwrap()).collect();
+    let ov = &s["overflow"];
+    let sig = Signal::parse(ov["sig"].as_str().unwrap_or("")).unwrap_or_else(|| tool_error("overflow: sig"));
+    let unit = REAL_CAP / ov["cap"].as_u64().unwrap_or(4).max(1);
+    let forms = forms_of(s);
+    let sc = coll.scenario(proto, [vec![], vec![], vec![]], [false; 3]);
+    let ep = sc.ep(sig).clone();
+    ep.set_gate(false);
+    let otlp = client::build_with(&sc, proto, gzip, &signals, forms);
+    let src = otlp.metric_source();
+    emit_otlp::verif::set_max_request_size_bytes(match ov["regime"].as_str().unwrap_or("default") {
+        "mid" => Some(32 * 1024),
+        _ => None,
+    });
+    let t0 = Instant::now();
+    let mut panics = Vec::new();
+    let mut tool_errors = Vec::new();
+    let mut nprime = 0i64;
+    let mut prime = |tool_errors: &mut Vec<Value>| {
+        let before = sc.log.count("Held");
+        sc.log.push(json!({"ev": "Emit", "id": PRIME_BASE + nprime, "sig": sig.name()}));
+        client::emit_for_signal(&otlp, sig, PRIME_BASE + nprime, "");
+        nprime += 1;
+        let until = Instant::now() + Duration::from_secs(30);
+        while sc.log.count("Held") == before {
+            if Instant::now() > until {
+                tool_errors.push(json!({"what": "the worker never sent the priming event"}));
+                return;
+            }
+            std::thread::sleep(Duration::from_millis(1));
+        }
+    };
+    let truncated = |src: &emit_otlp::OtlpMetrics| sample(src).get(&format!("otlp_{}_queue_full_truncated", sig.name())).copied().unwrap_or(0);
+    let flush = |panics: &mut Vec<String>| {
+        let ok = match catch(|| otlp.blocking_flush(flush_timeout)) {
+            Ok(ok) => ok,
+            Err(p) => {
+                panics.push(p);
+                false
+            }
+        };
+        let m = sample(&src);
+        let clientfails: u64 = m.iter().filter(|(k, _)| k.ends_with("_queue_batch_failed")).map(|(_, v)| *v).sum();
+        sc.log.push(json!({"ev": "Flush", "ok": ok, "clientfails": clientfails, "short": false}));
+        (ok, clientfails)
+    };
+    prime(&mut tool_errors);
+    let (mut next_id, mut seen, mut n_flushes) = (0u64, 0u64, 0usize);
+    for op in ov["ops"].as_array().unwrap_or_else(|| tool_error("overflow: ops")) {
+        if op == "send" {
+            let mut left = unit;
+            while left > 0 {
+                let n = left.min(CHUNK);
+                let (lo, hi) = (next_id, next_id + n - 1);
+                sc.log.push(json!({"ev": "EmitBurst", "lo": lo, "hi": hi, "sig": sig.name()}));
+                for id in lo..=hi {
+                    if let Err(p) = catch(|| client::emit_for_signal(&otlp, sig, id as i64, "")) {
+                        panics.push(p);
+                    }
+                }
+                next_id = hi + 1;
+                left -= n;
+                let t = truncated(&src);
+                if t > seen {
+                    sc.log.push(json!({"ev": "Trunc", "sig": sig.name(), "n": t - seen}));
+                    seen = t;
+                }
+            }
+        } else {
+            ep.set_gate(true);
+            flush(&mut panics);
+            n_flushes += 1;
+            ep.set_gate(false);
+            prime(&mut tool_errors);
+        }
+    }
+    ep.set_gate(true);
+    let (ok, clientfails) = flush(&mut panics);
+    n_flushes += 1;
+    emit_otlp::verif::set_max_request_size_bytes(None);
+    let snap = sc.log.snapshot();
+    let (tail, nreq, max_bytes, te) = trace_of(&snap, n_flushes);
+    tool_errors.extend(te);
+    let mut trace = vec![reset_of(scn, proto, forms)];
+    trace.extend(tail);
+    let m = sample(&src);
+    let summary = json!({
+        "client_timeouts": 0, "stalls": 0, "abandoned": snap.iter().filter(|e| e["ev"] == "Abandoned").count(),
+        "sc": scn, "flush": ok, "wall_ms": t0.elapsed().as_millis() as u64, "requests": nreq, "max_request_bytes": max_bytes,
+        "clientfails": clientfails, "panics": panics, "drift": Value::Null, "tool_errors": tool_errors,
+        "script_left": 0, "conn_failed": m.get("transport_conn_failed"),
+        "overflow": {"emitted": next_id, "truncations": seen},
+    });
+    drop(otlp);
+    Outcome { trace, summary }
+}
+
+/// Transport configurations as such ("form"): is the emitter that `spawn` returns one that
+/// accepts events (then the delivery rules apply to it) or an inert one (the build failed, counted
+/// in configuration_failed: nothing is accepted)?  The collector acknowledges everything.
+///   grpc_json        JSON encoding over gRPC framing
+///   grpc_proto       protobuf over gRPC framing (control)
+///   malformed_url    a URL that cannot be parsed (control for the inert branch)
+fn run_form(coll: &Collector, s: &Value, flush_timeout: Duration) -> Outcome {
+    let scn = s["sc"].as_u64().unwrap_or(0);
+    let form = s["form"].as_str().unwrap_or("");
+    let gzip = s["gzip"].as_bool().unwrap_or(false);
+    let sig = Signal::parse(s["signals"][0].as_str().unwrap_or("logs")).unwrap_or(Signal::Logs);
+    let proto = if form == "malformed_url" { Proto::HttpProto } else { Proto::Grpc };
+    let sc = coll.scenario(proto, [vec![], vec![], vec![]], [false; 3]);
+    let url = if form == "malformed_url" { "not a url ::".to_string() } else { sc.ep(sig).url() };
+    let t0 = Instant::now();
+    let mut panics = Vec::new();
+    let built = catch(|| {
+        let t = if proto.is_grpc() { emit_otlp::grpc(url.clone()) } else { emit_otlp::http(url.clone()) }.allow_compression(gzip);
+        let b = emit_otlp::new();
+        let json = form == "grpc_json";
+        match sig {
+            Signal::Logs => b.logs(if json { emit_otlp::logs_json(t) } else { emit_otlp::logs_proto(t) }),
+            Signal::Traces => b.traces(if json { emit_otlp::traces_json(t) } else { emit_otlp::traces_proto(t) }),
+            Signal::Metrics => b.metrics(if json { emit_otlp::metrics_json(t) } else { emit_otlp::metrics_proto(t) }),
+        }
+        .spawn()
+    });
+    let mut trace = vec![reset_of(scn, proto, client::Forms::default())];
+    let (mut ok, mut clientfails, mut inert) = (false, 0u64, false);
+    let (mut nreq, mut max_bytes, mut tool_errors) = (0u64, 0u64, Vec::new());
+    match built {
+        Err(p) => panics.push(p),
+        Ok(otlp) => {
+            let src = otlp.metric_source();
+            inert = sample(&src).get("configuration_failed").copied().unwrap_or(0) > 0;
+            sc.log.push(json!({"ev": "Built", "inert": inert}));
+            for vid in 0..s["nevents"].as_u64().unwrap_or(3) {
+                sc.log.push(json!({"ev": "Emit", "id": vid, "sig": sig.name()}));
+                if let Err(p) = catch(|| client::emit_for_signal(&otlp, sig, vid as i64, "")) {
+                    panics.push(p);
+                }
+            }
+            ok = match catch(|| otlp.blocking_flush(flush_timeout)) {
+                Ok(ok) => ok,
+                Err(p) => {
+                    panics.push(p);
+                    false
+                }
+            };
+            let m = sample(&src);
+            clientfails = m.iter().filter(|(k, _)| k.ends_with("_queue_batch_failed")).map(|(_, v)| *v).sum();
+            sc.log.push(json!({"ev": "Flush", "ok": ok, "clientfails": clientfails, "short": false}));
+            let (tail, n, mb, te) = trace_of(&sc.log.snapshot(), 1);
+            trace.extend(tail);
+            (nreq, max_bytes, tool_errors) = (n, mb, te);
+        }
+    }
+    let summary = json!({
+        "client_timeouts": 0, "stalls": 0, "abandoned": 0,
+        "sc": scn, "flush": ok, "wall_ms": t0.elapsed().as_millis() as u64, "requests": nreq, "max_request_bytes": max_bytes,
+        "clientfails": clientfails, "panics": panics, "drift": Value::Null, "tool_errors": tool_errors,
+        "script_left": 0, "conn_failed": Value::Null,
+        "form": {"form": form, "inert": inert, "requests": nreq},
+    });
+    Outcome { trace, summary }
+}
+
 fn run_scenario(coll: &Collector, s: &Value, flush_timeout: Duration) -> Outcome {
+    if s["overflow"].is_object() {
+        return run_overflow(coll, s, flush_timeout);
+    }
+    if s["form"].is_string() {
+        return run_form(coll, s, flush_timeout);
+    }
     let scn = s["sc"].as_u64().unwrap_or(0);
     let proto = Proto::parse(s["proto"].as_str().unwrap_or("")).unwrap_or_else(|| tool_error("scenario: bad proto"));
     let gzip = s["gzip"].as_bool().unwrap_or(false);
